@@ -1,8 +1,9 @@
 import Driver.Proto
 import Driver.OpsH
+import Driver.NttH
 namespace Driver
 
-def allHandlers : List (String × Handler) := opsHandlers
+def allHandlers : List (String × Handler) := opsHandlers ++ nttHandlers ++ nttHandlers2 ++ tabHandlers
 
 def findHandler (op : String) : Option Handler := (allHandlers.find? (·.1 == op)).map (·.2)
 
